@@ -23,7 +23,7 @@ theorem facts_guards :
       ["name==\"\"||(!abs&&keepRelative)", "dir==rows&&_>=num", "_+=offset;_<1", "_>TotalRows"] ∧
     Facts.C07.guardsOperandRef = ["_!=nil"] ∧
     Facts.C07.guardsOperand =
-      ["len(_)==2", "sheetName==\"\"", "sheet!=sheetName", "_==36",
+      ["_:=strings.LastIndex(_.TValue,\"!\");_!=-1", "sheetName==\"\"", "sheet!=sheetName", "_==36",
        "_,_,_,_=adjustFormulaColumnName(_,_,abs,keepRelative,dir,num,offset);_!=nil",
        "(65<=_&&_<=90)||(97<=_&&_<=122)", "48<=_&&_<=57", "_!=nil",
        "_,_,_,abs,_=adjustFormulaOperandRef(_,_,_,abs,keepRelative,dir,num,offset);_!=nil"] ∧
@@ -37,14 +37,17 @@ theorem facts_guards :
     Facts.C07.guardsParen =
       ["isFunctionStartToken(_)||isBeginParenthesesToken(_)", "isFunctionStopToken(_)||isEndParenthesesToken(_)"] ∧
     Facts.C07.guardsEscape =
-      ["strings.IndexFunc(name,func{!unicode.IsLetter(_)&&!unicode.IsNumber(_)})!=-1"] := by
+      ["strings.IndexFunc(name,func{!unicode.IsLetter(_)&&!unicode.IsNumber(_)})!=-1||needQuoteSheetName(name)"] ∧
+    Facts.C07.guardsNeedQuote =
+      ["name==\"\"", "_,_:=_.DecodeRuneInString(name);unicode.IsNumber(_)",
+       "_,_,_:=CellNameToCoordinates(name);_==nil"] := by
   decide
 
 /-- Tie: literal constants of the rewriter (character classes, separator, floors, quotes). -/
 theorem facts_constants :
     Facts.C07.dollar = 36 ∧ Facts.C07.upperLo = 65 ∧ Facts.C07.upperHi = 90 ∧ Facts.C07.lowerLo = 97 ∧
     Facts.C07.lowerHi = 122 ∧ Facts.C07.digitLo = 48 ∧ Facts.C07.digitHi = 57 ∧ Facts.C07.sheetSep = 33 ∧
-    Facts.C07.sheetParts = 2 ∧ Facts.C07.colFloor = 1 ∧ Facts.C07.colFloorSet = 1 ∧ Facts.C07.rowFloor = 1 ∧
+    Facts.C07.colFloor = 1 ∧ Facts.C07.colFloorSet = 1 ∧ Facts.C07.rowFloor = 1 ∧
     Facts.C07.rowFloorSet = 1 ∧ Facts.C07.textQuote = 34 ∧ Facts.C07.sheetQuote = 39 ∧
     Facts.MaxColumns = 16384 ∧ Facts.TotalRows = 1048576 := by
   decide
@@ -379,9 +382,8 @@ theorem operand_unprefixed_same_sheet (sheet : Str) (kr : Bool) (e : Edit) (r r'
     (hg : Spec.inGrid r) (hs : Spec.shiftRef kr e r = some r') (hg' : Spec.inGrid r') :
     Impl.adjustOperand sheet sheet kr e (Spec.render r) = .ok (Spec.render r') := by
   unfold Impl.adjustOperand
-  rw [splitOn_none _ _ (render_noBang r)]
-  have h2 : ([Spec.render r].length == Facts.C07.sheetParts) = false := rfl
-  simp only [h2, Bool.false_eq_true, if_false, List.isEmpty_nil, if_true, ne_eq, not_true_eq_false]
+  rw [lastIdx_noSep _ (render_noBang r)]
+  simp only [List.isEmpty_nil, if_true, ne_eq, not_true_eq_false, if_false]
   simpa using operand_rewrite_correct kr e r r' [] hg hs hg'
 
 /-- **formula_on_other_sheet** — clause "on that sheet or any other": an unprefixed reference in a
@@ -390,48 +392,43 @@ theorem operand_unprefixed_other_sheet (sheet sheetN : Str) (kr : Bool) (e : Edi
     (hne : sheet ≠ sheetN) (hb : noBang tv) :
     Impl.adjustOperand sheet sheetN kr e tv = .ok tv := by
   unfold Impl.adjustOperand
-  rw [splitOn_none _ _ hb]
-  have h2 : ([tv].length == Facts.C07.sheetParts) = false := rfl
-  simp only [h2, Bool.false_eq_true, if_false, List.isEmpty_nil, if_true, ne_eq, hne, not_false_eq_true,
-    List.nil_append]
+  rw [lastIdx_noSep _ hb]
+  simp only [List.isEmpty_nil, if_true, ne_eq, hne, not_false_eq_true, List.nil_append]
 
 /-- … while a reference prefixed with the edited sheet's name is relocated wherever the formula
-lives (cells of other sheets, defined names with `sheetN = ""`), the prefix being re-emitted
-through `escapeSheetName`. -/
+lives (cells of other sheets, defined names with `sheetN = ""`), for EVERY sheet name — also one that
+contains `!` (repaired: the name is what precedes the last `!`) — the prefix being re-emitted through
+`escapeSheetName`. -/
 theorem operand_prefixed_edited_sheet (sheet sheetN : Str) (kr : Bool) (e : Edit) (r r' : Spec.Ref)
-    (hne : sheet ≠ []) (hb : noBang sheet)
+    (hne : sheet ≠ [])
     (hg : Spec.inGrid r) (hs : Spec.shiftRef kr e r = some r') (hg' : Spec.inGrid r') :
     Impl.adjustOperand sheet sheetN kr e (sheet ++ '!' :: Spec.render r) =
       .ok (Impl.escapeSheetName sheet ++ '!' :: Spec.render r') := by
   unfold Impl.adjustOperand
-  rw [splitOn_one _ '!' (by decide) _ _ hb (render_noBang r)]
-  have h2 : ([sheet, Spec.render r].length == Facts.C07.sheetParts) = true := rfl
+  rw [lastIdx_sep _ _ (render_noBang r)]
   have he : sheet.isEmpty = false := by
     cases sheet with
     | nil => exact absurd rfl hne
     | cons _ _ => rfl
-  simp only [h2, if_true, List.headD_cons, List.drop_one, List.tail_cons, he, Bool.false_eq_true, if_false,
-    ne_eq, not_true_eq_false]
+  simp only [take_sep, drop_sep, he, Bool.false_eq_true, if_false, ne_eq, not_true_eq_false]
   have := operand_rewrite_correct kr e r r' (Impl.escapeSheetName sheet ++ [Char.ofNat Facts.C07.sheetSep]) hg hs hg'
   rw [this]
   simp
   rfl
 
 /-- **other_sheet_refs_preserved** — clause "references to other sheets are preserved": an operand
-prefixed with another sheet's name keeps its cell part byte for byte, whatever it is. -/
+prefixed with another sheet's name (any name) keeps its cell part byte for byte, whatever it is. -/
 theorem operand_prefixed_other_sheet (sheet sheetN name cell : Str) (kr : Bool) (e : Edit)
-    (hne : name ≠ []) (hdiff : sheet ≠ name) (hb : noBang name) (hc : noBang cell) :
+    (hne : name ≠ []) (hdiff : sheet ≠ name) (hc : noBang cell) :
     Impl.adjustOperand sheet sheetN kr e (name ++ '!' :: cell) =
       .ok (Impl.escapeSheetName name ++ '!' :: cell) := by
   unfold Impl.adjustOperand
-  rw [splitOn_one _ '!' (by decide) _ _ hb hc]
-  have h2 : ([name, cell].length == Facts.C07.sheetParts) = true := rfl
+  rw [lastIdx_sep _ _ hc]
   have he : name.isEmpty = false := by
     cases name with
     | nil => exact absurd rfl hne
     | cons _ _ => rfl
-  simp only [h2, if_true, List.headD_cons, List.drop_one, List.tail_cons, he, Bool.false_eq_true, if_false,
-    ne_eq, hdiff, not_false_eq_true]
+  simp only [take_sep, drop_sep, he, Bool.false_eq_true, if_false, ne_eq, hdiff, not_false_eq_true]
   simp
   rfl
 
@@ -851,23 +848,36 @@ theorem finding_array_constant_rewritten :
       = (['A','R','R','A','Y','(','A','R','R','A','Y','R','O','W','(','1',')',')'], none) := by
   decide
 
-/-- **finding_sheet_prefix_requoted** (open) — "quoted sheet names are preserved verbatim" holds
-only up to re-quoting: efp drops the quotes, `escapeSheetName` decides anew from the characters of
-the name. `'Sheet1'!A1` comes back as `Sheet1!A1`, `Sheet_3!A1` as `'Sheet_3'!A1`, and a name
-that Excel requires to be quoted because it starts with a digit (`'2024'!A1`) comes back bare. -/
+/-- **finding_sheet_prefix_requoted** (open, narrowed by a repair) — "quoted sheet names are preserved
+verbatim" holds only up to re-quoting: efp drops the quotes and `escapeSheetName` decides anew from
+the name. What remains after the repair is cosmetic and is what Excel itself does when it stores a
+formula: unnecessary quotes are dropped (`'Sheet1'!A1` comes back as `Sheet1!A1`), and a name with
+`_` or `.` gets quotes (`Sheet_3!A1` → `'Sheet_3'!A1`). -/
 theorem finding_sheet_prefix_requoted :
     Impl.escapeSheetName ['S','h','e','e','t','1'] = ['S','h','e','e','t','1'] ∧
-    Impl.escapeSheetName ['S','h','e','e','t','_','3'] = ['\'','S','h','e','e','t','_','3','\''] ∧
-    Impl.escapeSheetName ['2','0','2','4'] = ['2','0','2','4'] := by
-  decide
+    Impl.escapeSheetName ['S','h','e','e','t','_','3'] = ['\'','S','h','e','e','t','_','3','\''] := by
+  decide +kernel
 
-/-- **finding_sheet_name_with_bang** (open) — a sheet name containing `!` (legal in excelize and
-Excel, always quoted) makes `strings.Split(token, "!")` yield three parts; the prefix is then
-treated as part of the cell text and its letters are shifted as column names:
-`'a!b'!A3` on the edited sheet becomes `C!D!C3` when two columns are inserted at A. -/
-theorem finding_sheet_name_with_bang :
+/-- **required_quotes_kept** (repaired in the repository) — names that Excel only accepts quoted
+although they consist of letters and numbers keep their quotes: a leading digit (`2024`), a name that
+reads as a cell reference (`FY24`, `A1`), a boolean. -/
+theorem required_quotes_kept :
+    Impl.escapeSheetName ['2','0','2','4'] = ['\'','2','0','2','4','\''] ∧
+    Impl.escapeSheetName ['F','Y','2','4'] = ['\'','F','Y','2','4','\''] ∧
+    Impl.escapeSheetName ['A','1'] = ['\'','A','1','\''] ∧
+    Impl.escapeSheetName ['t','r','u','e'] = ['\'','t','r','u','e','\''] ∧
+    Impl.escapeSheetName ['F','Y'] = ['F','Y'] := by
+  decide +kernel
+
+/-- **sheet_name_with_bang** (repaired in the repository; was `finding_sheet_name_with_bang`) —
+`'a!b'!A3` (token value `a!b!A3`): on a sheet other than `a!b` the operand is left alone, and when
+`a!b` is the edited sheet it is relocated; the prefix is re-quoted. General statement:
+`operand_prefixed_edited_sheet` / `operand_prefixed_other_sheet`, now without any condition on the name. -/
+theorem sheet_name_with_bang :
     Impl.adjustOperand ['S'] ['S'] false ⟨.cols, 1, 2⟩ ['a','!','b','!','A','3'] =
-      .ok ['C','!','D','!','C','3'] := by
+      .ok ['\'','a','!','b','\'','!','A','3'] ∧
+    Impl.adjustOperand ['a','!','b'] ['S'] false ⟨.cols, 1, 2⟩ ['a','!','b','!','A','3'] =
+      .ok ['\'','a','!','b','\'','!','C','3'] := by
   decide +kernel
 
 /-- outside the property's hypothesis ("no endpoint in a deleted row/column"), recorded for the
